@@ -340,3 +340,118 @@ def c35(site, body_fails, pre_exists, x):
     if site_reached and not pre_exists and raised is None and name != "none":
         return "%s: exception swallowed, submission reported success" % desc
     return None
+
+
+# ------------------------------------------------------------------ C12
+class Crash(BaseException):
+    """process death: not an Exception, so pydra's own handlers do not see it (as they would not see SIGKILL)"""
+
+
+def c12(event, phase, workflow, body_fails_later, x):
+    """kill the 'process' at the event-th persistence event (phase: 0 before, 1 mid-write, 2 after),
+    snapshot the cache root as it is at that instant, resubmit against the snapshot"""
+    from crosshair.tracers import NoTracing
+    from pydra.engine.submitter import Submitter
+    E.reset()
+    R.clear()
+    R.FLAGS["fail"] = False
+    d = E.scratch()
+    snap = d + "_snap"
+    counter = {"n": 0, "crashed": False}
+    real_save, real_rec = J.save, J.record_error
+    real_dump = RS.cp.dump
+
+    def die():
+        counter["crashed"] = True
+        with NoTracing():
+            shutil.copytree(d, snap)
+        raise Crash()
+
+    def tick():
+        counter["n"] += 1
+        return (not counter["crashed"]) and counter["n"] == event
+
+    def save(*a, **k):
+        hit = tick()
+        if hit and phase == 0:
+            die()
+        if hit and phase == 1:
+            state = {"first": True}
+
+            def dump(obj, fp):
+                if state["first"]:
+                    state["first"] = False
+                    import cloudpickle
+                    with NoTracing():
+                        data = cloudpickle.dumps(T.real(obj))
+                        fp.write(data[: len(data) // 2])
+                        fp.flush()
+                    die()
+                return real_dump(obj, fp)
+            RS.cp.dump = dump
+            try:
+                return real_save(*a, **k)
+            finally:
+                RS.cp.dump = real_dump
+        out = real_save(*a, **k)
+        if hit:
+            die()
+        return out
+
+    def body_event():
+        if tick():
+            die()
+
+    R.FLAGS["on_body"] = body_event
+    task = (lambda: D.FlakyWf(x=x)) if workflow else (lambda: D.Flaky(x=x, tag=3))
+    want = (x * 10 + 1) * 10 + 2 if workflow else x * 10 + 3
+    J.save = save
+    crashed = False
+    try:
+        try:
+            with Submitter(cache_root=d, worker="debug") as sub:
+                sub(task())
+        except Crash:
+            crashed = True
+        except Exception:
+            pass
+    finally:
+        J.save = real_save
+        RS.cp.dump = real_dump
+        R.FLAGS.pop("on_body", None)
+    first_bodies = len(bodies("Flaky"))
+    try:
+        if not crashed:
+            T.reach()
+            return None                    # fewer events than `event`: nothing to check on this path
+        with NoTracing():
+            for root, _, files in os.walk(snap):
+                for f in files:
+                    if f.endswith(".lock"):
+                        os.unlink(os.path.join(root, f))       # assumption: stale locks are broken by the lock library
+        R.FLAGS["fail"] = bool(body_fails_later)
+        out = err = None
+        try:
+            with Submitter(cache_root=snap, worker="debug") as sub:
+                res = sub(task())
+            out = None if res.errored else res.outputs.out
+            if res.errored:
+                err = "errored result"
+        except Exception as e:
+            err = e
+        second = len(bodies("Flaky")) - first_bodies
+    finally:
+        R.FLAGS["fail"] = False
+        E.cleanup(d)
+        E.cleanup(snap)
+    T.reach()
+    desc = "crash at persistence event %d phase %s (%s)" % (event, ["before", "mid-write", "after"][phase], "workflow" if workflow else "task")
+    if body_fails_later:
+        if err is None and second > 0:
+            return "%s: resubmission with a failing body reported success %r" % (desc, out)
+        return None
+    if err is not None:
+        return "%s: resubmission failed: %r" % (desc, err)
+    if out != want:
+        return "%s: resubmission returned %r, the correct result is %r (bodies re-executed: %d)" % (desc, out, want, second)
+    return None
